@@ -23,8 +23,20 @@ def build_history(rng, tier):
     name = sts[0]["table"]
     evs = [("stmt", sts[0])]
     names = [name]
-    plan = rng.choice(["inplace", "inplace", "grow"])
-    if plan == "inplace":
+    plan = rng.choice(["inplace", "inplace", "grow", "grown-inplace"])
+    if plan == "grown-inplace":
+        # the table has an internal root whose split was flushed long ago; then single rows that fit their leaf
+        # (in place: only a leaf changes), each followed by a flush that may be cut short - also the flush that
+        # ends the recovery of such an image (root and leaf are different pages there)
+        evs.append(("stmt", {"k": "insert", "table": name, "cols": [], "rows": [[i, "r%d" % i] for i in range(rng.randint(19, 30))]}))
+        evs.append(("flush",))
+        for _ in range(rng.randint(2, 4)):
+            g.counter += 1
+            evs.append(("stmt", {"k": "insert", "table": name, "cols": [], "rows": [[1000 + g.counter, "n"]]}))
+            if rng.random() < 0.5:
+                evs.append(("stmt", {"k": "update", "table": name, "sets": [("b", "u")], "where": [[(("col", "", "a"), "=", rng.randrange(0, 15))]]}))
+            evs.append(("tornflush", list(names)))
+    elif plan == "inplace":
         evs.append(("stmt", g.insert(name, nrows=rng.randint(2, 6))))
         evs.append(("tornflush", list(names)))
         for _ in range(rng.randint(2, 6)):
